@@ -67,6 +67,7 @@ def make_cases(rng, tier):
     for i in range(n // 2):            # unrestricted half (re-adds, partial fills, replenishment, amendments)
         g = lvl.HistGen(rng, rebuilds=False, reads=False)
         cs.append((g.price, g.history(rng.randint(5, 30)) + ["MATCH 18446744073709551615 u7999"]))
+    cs += deep_histories(rng, 8 if tier == "quick" else 300)
     return cs
 
 
